@@ -15,6 +15,7 @@ def run(tier):
         "REDUCED SCOPE: convergence 'within bounded time after the last disturbance' over real TLS sockets, mDNS and wall-clock back-off is a liveness claim about two processes and is NOT decided; decided are the three mechanisms the property rests on",
         "tie-break: SKIs are arbitrary distinct non-empty lower-case hex strings of bounded length (byte vectors, Go string comparison exact); four situations (each of the two simultaneous connections arriving second on each of the two hubs)",
         "back-off: counter arbitrary in its invariant range, rand.Intn(n) returns any value in [0,n) and panics for n <= 0",
+        "progress (one hub step from an arbitrary state): an mDNS report listing a trusted, unconnected SKI with no attempt running leads to a dial; the reported end of the registered connection of a trusted SKI leads to a re-announcement and a look at the known entries",
         "atomicity: the real ServeHTTP and connectFoundService run as two goroutines for the same peer under the delay-bounded scheduler, TLS/websocket calls cut (as in C02), no timer elapses; the peer stays silent",
     ]
     d = 3 if tier == "thorough" else 2
@@ -25,6 +26,9 @@ def run(tier):
     res2, meta2 = lib.run_engine("hub", ["H_C05_Atomicity"], sched="explore", preempt=d, cuts=C05_CUTS, solver="z3-new", maxstr=40, loop=80,
                                  extra=["-bvstr"], paths=3000000)
     c.add_run("check-then-register", res2, meta2)
+    # progress mechanisms in the hub step (shared harness with C10): report => dial, lost trusted connection => re-announce
+    import hubstep
+    hubstep.run_hub(c, ["H_Hub_Step"], ("C05.",))
     for rs in (res, res2):
         for e, r in (rs or {}).items():
             if not r["covers"].get("hub.end"):
